@@ -41,7 +41,11 @@ L1_START, L1_CAP = 0x10000000, 65536
 # ------------------------------------------------------------------------------------------------ space
 
 
+_TIER = ["quick"]
+
+
 def space(tier):
+    _TIER[0] = tier
     parts = [Tagged("size", _size_space(tier)), Tagged("static", _static_space(tier)), Tagged("mini", _mini_space(tier))]
     return Concat(*parts)
 
@@ -69,7 +73,7 @@ def _static_space(tier):
 def _mini_space(tier):
     b = BOUNDS[tier]
     cases = []
-    kinds = ["d", "v", "l"]  # direct, through a subview, inside a loop
+    kinds = ["d", "v", "l", "ll"]  # direct, through a subview, inside a loop, inside a loop nest of depth 2
     for nb in (2, 3):
         events = [(buf, k) for buf in range(nb) for k in kinds]
         for n in range(2, b["uses"] + 1):
@@ -77,9 +81,11 @@ def _mini_space(tier):
                 used = {e[0] for e in seq}
                 if used != set(range(nb)):
                     continue
+                if tier == "quick" and n > 3 and any(e[1] == "ll" for e in seq):
+                    continue
                 if nb == 3 and n > 3 and tier == "quick":
                     # thin: at most one loop use
-                    if sum(1 for e in seq if e[1] == "l") > 1:
+                    if sum(1 for e in seq if e[1] in ("l", "ll")) > 1:
                         continue
                 # canonical buffer naming: first appearances in order 0,1,2
                 firsts = []
@@ -285,9 +291,15 @@ def mini_text(nb, seq, late):
             lines.append(f'  "test.op"(%b{b}) {{verif.id = {tag} : i32}} : ({mt}) -> ()')
         elif k == "v":
             lines.append(f'  "test.op"(%v{b}) {{verif.id = {tag} : i32}} : ({svt}) -> ()')
-        else:
+        elif k == "l":
             lines.append(f"  scf.for %i{tag} = %c0 to %c2 step %c1 {{")
             lines.append(f'    "test.op"(%b{b}) {{verif.id = {tag} : i32}} : ({mt}) -> ()')
+            lines.append("  }")
+        else:
+            lines.append(f"  scf.for %i{tag} = %c0 to %c2 step %c1 {{")
+            lines.append(f"    scf.for %j{tag} = %c0 to %c2 step %c1 {{")
+            lines.append(f'      "test.op"(%v{b}) {{verif.id = {tag} : i32}} : ({svt}) -> ()')
+            lines.append("    }")
             lines.append("  }")
     return "builtin.module {\nfunc.func @f() {\n" + "\n".join(lines) + "\n  func.return\n}\n}\n"
 
@@ -359,7 +371,8 @@ def valid_placements(buffers, capacity, grid):
             yield pl
 
 
-def eval_mini(r, nb, seq, late, mode, only_placement=None, tier="quick"):
+def eval_mini(r, nb, seq, late, mode, only_placement=None, tier=None):
+    tier = tier or _TIER[0]
     import minimalloc
 
     text = mini_text(nb, seq, late)
@@ -382,7 +395,7 @@ def eval_mini(r, nb, seq, late, mode, only_placement=None, tier="quick"):
     declared = [(b.start_time, b.end_time, b.size, b.alignment) for b in prob.buffers]
     grid = BOUNDS[tier]["grid"]
     nplace = 0
-    r.nontrivial = any(k == "v" for _, k in seq)
+    r.nontrivial = any(k in ("v", "ll") for _, k in seq)
     for pl in valid_placements(prob.buffers, prob.capacity, grid):
         if only_placement is not None and list(pl) != list(only_placement):
             continue
